@@ -200,7 +200,7 @@ func c17Accept(w *core.W, in []byte, entry string) {
 
 var c17Spellings = []string{`9223372036854775808`, `18446744073709551616`, `"a\/b"`, `"/"`, `0`, `-0`, `0.0`, `-0.0`, `1`, `1.0`, `1.00`, `10`, `10.0`, `2.5`, `2.50`, `-1.0`, `"1.0"`, `"1"`}
 
-var c17Layouts = []string{"compact", "spaced", "lines", "line-notes", "block-notes", "empty-annotations"}
+var c17Layouts = []string{"compact", "spaced", "lines", "line-notes", "block-notes", "empty-annotations", "bare-line-notes"}
 
 func c17Render(list []string, layout string) string {
 	switch layout {
@@ -219,6 +219,22 @@ func c17Render(list []string, layout string) string {
 				b.WriteString(",")
 			}
 			fmt.Fprintf(&b, " // note %d\n", i)
+		}
+		b.WriteString("]")
+		return b.String()
+	case "bare-line-notes": // inline annotations without any text
+		var b strings.Builder
+		b.WriteString("[ //\n")
+		for i, it := range list {
+			b.WriteString("\t" + it)
+			if i != len(list)-1 {
+				b.WriteString(",")
+			}
+			if i%2 == 0 {
+				b.WriteString(" //\n")
+			} else {
+				b.WriteString(" // \t\n")
+			}
 		}
 		b.WriteString("]")
 		return b.String()
@@ -294,8 +310,9 @@ func c17Meaning(w *core.W, list []string, layout, v string) {
 		sig["layout"] = layout
 		w.Violate(core.Violation{Clause: clause, Entry: "meaning", Input: in, Witness: wit, Detail: detail, Sig: sig})
 	}
-	var errA, errB error
-	var exA, exB []byte
+	var errA, errB, errC error
+	var exA, exB, exC []byte
+	hasC := false
 	var exErrA, exErrB error
 	rec, site := guard(func() {
 		a := jschema.New("a", v+" // {enum: @e}")
@@ -307,7 +324,18 @@ func c17Meaning(w *core.W, list []string, layout, v string) {
 		b := jschema.New("b", v+" // {enum: ["+strings.Join(list, ", ")+"]}")
 		errB = b.Check()
 		exB, exErrB = b.Example()
+		if layout == "line-notes" || layout == "bare-line-notes" {
+			// the same list written inline with the same comments, in a /* */ annotation
+			c := jschema.New("c", v+" /* {enum: "+strings.ReplaceAll(ruleText, "\n", "\n\t")+"} */")
+			errC = c.Check()
+			exC, _ = c.Example()
+			hasC = true
+		}
 	})
+	if rec == nil && hasC && ((errC == nil) != (errB == nil) || (errB == nil && string(exC) != string(exB))) {
+		fail("inline-comments-change-nothing", fmt.Sprintf("inline list without comments: %s / %q; with the comments of this layout: %s / %q", errStr(errB), exB, errStr(errC), exC), map[string]string{"code": fmt.Sprint(errCode(errC))})
+		return
+	}
 	if rec != nil {
 		fail("no-panic", fmt.Sprintf("panic: %v", rec), map[string]string{"site": site})
 		return
@@ -332,7 +360,7 @@ func init() {
 	Register(&Prop{
 		ID:        "C17",
 		Technique: "bounded exhaustive enumeration of enum-rule texts + explicit-state search of the enum scanner (acceptance vs encoding/json-based reference), and exhaustive lists x layouts x example values for the rule-file/inline differential",
-		Rule:      "acceptance: every string of <= N tokens over a 17-token comment-free alphabet and every reachable enum-scanner state x byte class; meaning: every list of <=3 entries over 17 scalars x 5 layouts x 17 example values, `v // {enum: @e}` vs `v // {enum: [list]}`; non-trivial = accepted rule texts / project pairs that both accept",
+		Rule:      "acceptance: every string of <= N tokens over a 17-token comment-free alphabet and every reachable enum-scanner state x byte class; meaning: every list of <=3 entries over 17 scalars x 7 layouts (incl. annotations without text) x 17 example values, the commented layouts also written inline, `v // {enum: @e}` vs `v // {enum: [list]}`; non-trivial = accepted rule texts / project pairs that both accept",
 		Bounds: func(tier string) map[string]any {
 			return map[string]any{"max_tokens": c17N(tier), "scalars": len(c17Scalars), "max_list": 3, "layouts": c17Layouts}
 		},
